@@ -13,7 +13,8 @@ CONSTANTS MaxParams,  \* exhaustive call space: signatures of 1..MaxParams param
 
 \* a mandatory parameter's default only feeds the interactive prompt: left out
 Shapes == {sh \in [type : Types, optional : BOOLEAN, hasDefault : BOOLEAN, default : ArgVals \cup {""}] :
-              (sh.hasDefault <=> sh.default # "") /\ (sh.hasDefault => sh.optional)}
+              \* (an explicit empty default `[]` is a default too: hasDefault with default "")
+              (~sh.hasDefault => sh.default = "") /\ (sh.hasDefault => sh.optional)}
 SigsOf(n) == {ps \in [1..n -> Shapes] : ~MandatoryAfterOptional(ps)}
 ArgsUpTo(n) == UNION {[1..m -> ArgVals] : m \in 0..n}
 AllCalls == UNION {{[ps |-> ps, args |-> a] : ps \in SigsOf(n), a \in ArgsUpTo(n)} : n \in 1..MaxParams}
